@@ -144,7 +144,12 @@ def run_history(res: Result, gw, steps, label, hid, main_ident=None):
         if oc in ("blocked", "timed"):
             for pn in range(st.get("probes", 1) if st["overlap_probe"] and oc == "blocked" else (1 if st["overlap_probe"] else 0)):
                 # a submission while this body is still running must be refused with the documented text ... (every one of them)
-                probe = gw.remote_exec(body_for(tag + 50 + pn, "return", main_ident))
+                # (every third such submission carries a source that does not even compile: it is refused all the same,
+                # the worker has no business looking at it while the main thread is taken)
+                uncompilable = oc == "blocked" and (tag + pn) % 3 == 0
+                if uncompilable:
+                    res.count("overlap_probes_with_uncompilable_source")
+                probe = gw.remote_exec("def broken(:\n    pass\n" if uncompilable else body_for(tag + 50 + pn, "return", main_ident))
                 t0 = time.monotonic()
                 try:
                     got = probe.receive(15)
